@@ -77,6 +77,8 @@ func main() {
 		os.Exit(cmdReplay(os.Args[2:]))
 	case "selftest":
 		os.Exit(cmdSelftest(os.Args[2:]))
+	case "run":
+		os.Exit(cmdRun(os.Args[2:]))
 	case "build":
 		// warm-up / debugging aid: builds the simulator (and with "race" also the
 		// -race variant) against the current tree and prints the path; the
@@ -383,6 +385,7 @@ type agg struct {
 	samples      []any
 	viol         map[string]*violRec // key property:kind(+detail)
 	notes        map[string]int
+	noteSeed     map[string]string
 	infra        []string
 	stalled      int
 	budget       int
@@ -478,7 +481,14 @@ func (a *agg) add(prop string, o *RunOutput) {
 				a.viol[k] = &violRec{v: *v, out: o, count: 1}
 			}
 		} else {
-			a.notes[v.Property+":"+v.Kind]++
+			nk := v.Property + ":" + v.Kind + " in family " + o.Spec.Family
+			if a.noteSeed == nil {
+				a.noteSeed = map[string]string{}
+			}
+			if _, ok := a.noteSeed[nk]; !ok {
+				a.noteSeed[nk] = fmt.Sprintf("seed=%d run=%d param=%v hol=%s", o.Spec.Seed, o.Spec.Run, o.Spec.Param, v.Detail["hol"])
+			}
+			a.notes[nk]++
 		}
 	}
 }
@@ -650,7 +660,7 @@ func cmdCheck(args []string) int {
 	}
 	writeEvidence(id, ps, *tier, seed, a, b, wall, nViol, knownHit)
 	for k, n := range a.notes {
-		fmt.Printf("note: %d runs also tripped %s (decided by that property's own check)\n", n, k)
+		fmt.Printf("note: %d runs also tripped %s (decided by that property's own check; first: %s)\n", n, k, a.noteSeed[k])
 	}
 	fmt.Printf("%s %s: %d runs, %d steps, %d distinct schedules, %.0f simulated s, %.1fs wall, %d violation kind(s), %d known finding(s)\n",
 		id, *tier, a.runs, a.steps, len(a.digests), float64(a.simNs)/1e9, wall, nViol, len(knownHit))
@@ -893,6 +903,50 @@ func sanitize(s string) string {
 		r = r[:48]
 	}
 	return r
+}
+
+// cmdRun executes one run given by family, seed and run number (a debugging
+// aid: the notes of a check name runs this way) and prints its history and
+// every violation any oracle raised.
+func cmdRun(args []string) int {
+	fs := flag.NewFlagSet("run", flag.ExitOnError)
+	family := fs.String("family", "", "scenario family")
+	seed := fs.Uint64("seed", 1, "seed")
+	run := fs.Uint64("run", 0, "run number")
+	tier := fs.String("tier", "quick", "tier")
+	param := fs.String("param", "", "k=v,k=v")
+	race := fs.Bool("race", false, "race build")
+	quiet := fs.Bool("quiet", false, "do not print the history")
+	fs.Parse(args)
+	spec := RunSpec{Family: *family, Seed: *seed, Run: *run, Tier: *tier, KeepLog: true}
+	if *param != "" {
+		spec.Param = map[string]int{}
+		for _, kv := range strings.Split(*param, ",") {
+			k, v, _ := strings.Cut(kv, "=")
+			n, _ := strconv.Atoi(v)
+			spec.Param[k] = n
+		}
+	}
+	b := buildSim(*race)
+	defer b.cleanup()
+	outs, _, crashed, stderr, err := runJob(b, &Job{Runs: []RunSpec{spec}}, 1, 30*time.Minute)
+	if crashed != nil || err != nil || len(outs) != 1 {
+		fmt.Printf("worker failed: %v\n%s\n", err, tail(stderr, 6000))
+		return 2
+	}
+	o := outs[0]
+	if !*quiet {
+		for _, l := range o.History {
+			fmt.Println(l)
+		}
+	}
+	d, _ := json.MarshalIndent(o.Desc, "", " ")
+	fmt.Printf("config: %s\n", d)
+	fmt.Printf("steps=%d digest=%s choices=%d stalled=%v\n", o.Steps, o.Digest, o.NChoices, o.Stalled)
+	for _, v := range o.Violations {
+		fmt.Printf("violation: %s %s %v: %s\n", v.Property, v.Kind, v.Detail, v.Msg)
+	}
+	return 0
 }
 
 func cmdReplay(args []string) int {
